@@ -15,6 +15,7 @@ ROOT = os.path.dirname(os.path.dirname(os.path.abspath(__file__)))
 SEEDED = os.path.join(ROOT, "seeded")
 ENV = dict(os.environ, GOFLAGS="-mod=mod", GOPROXY="off", GOSUMDB="off", GOTOOLCHAIN="local")
 ALL = [f"C{i:02d}" for i in range(1, 21)]
+MATRIX = False
 
 
 def sh(cmd, cwd=None, timeout=1800):
@@ -98,7 +99,8 @@ def run(sid, props, checks=None):
                 if line.startswith("[") and "]" in line and not line.startswith("[rapid]"):
                     clause = line[:300]
                     break
-            results[p] = {"rc": rc, "detected": rc == 1, "seconds": round(time.time() - t0, 1), "first_message": clause}
+            results[p] = {"rc": rc, "detected": rc == 1, "seconds": round(time.time() - t0, 1), "first_message": clause,
+                          "cases": checks or "quick tier default"}
             print(sid, p, "DETECTED" if rc == 1 else ("inconclusive" if rc == 2 else "missed"), f"{time.time()-t0:.0f}s", clause[:200], flush=True)
     finally:
         sh(["git", "-C", "/repo", "worktree", "remove", "--force", wt])
@@ -117,10 +119,15 @@ def run(sid, props, checks=None):
         shutil.rmtree(outdir, ignore_errors=True)
     meta_path = os.path.join(dst, "meta.json")
     meta = json.load(open(meta_path)) if os.path.exists(meta_path) else {"id": sid}
-    meta.setdefault("checks", {}).update(results)
+    old = meta.setdefault("checks", {})
+    for p, r in results.items():
+        # a reduced-budget matrix run never replaces a full-budget result
+        if MATRIX and p in old and old[p].get("cases") in (None, "quick tier default"):
+            continue
+        old[p] = r
     meta["detected_by"] = sorted(p for p, r in meta["checks"].items() if r["detected"])
     meta["missed_by"] = sorted(p for p, r in meta["checks"].items() if not r["detected"])
-    meta["ran"] = "scratch worktree of /repo HEAD + git apply patch.diff; VERIF_REPO=<worktree> ./check <P> (quick tier, VERIF_SEED=1" + (f", --checks {checks}" if checks else "") + "); worktree removed"
+    meta["ran"] = "scratch worktree of /repo HEAD + git apply patch.diff; VERIF_REPO=<worktree> ./check <P> (quick tier, VERIF_SEED=1; the target property at the full quick budget, the other properties with --checks 24000); worktree removed"
     json.dump(meta, open(meta_path, "w"), indent=1)
 
 
@@ -135,6 +142,9 @@ if __name__ == "__main__":
             i = rest.index("--checks")
             checks = int(rest[i + 1])
             rest = rest[:i] + rest[i + 2:]
+        if "--matrix" in rest:
+            rest.remove("--matrix")
+            globals()["MATRIX"] = True
         props = rest or ALL
         if props == ["all"]:
             props = ALL
